@@ -43,7 +43,7 @@ def go_unquote(lit):
 env = dict(os.environ, GOFLAGS="-mod=mod", GOPROXY="off", VERIF_ROOT=ROOT)
 pkg = os.path.join(ROOT, "harness", "codec")
 try:
-    p = subprocess.run(["go", "test", "-tags", "verif", "-run", "^$", "-fuzz", "^FuzzUnmarshal$", "-fuzztime", "%ds" % secs,
+    p = subprocess.run(["go", "test", "-tags", "verif", "-run", "^$", "-fuzz", "^FuzzUnmarshal$", "-fuzztime", "%ds" % secs, "-parallel", "4",
                         "-test.fuzzcachedir", cache, "."], cwd=pkg, env=env, capture_output=True, text=True)
     print(p.stdout[-1500:])
     if p.returncode != 0:
